@@ -561,9 +561,21 @@ def replay_quantile(s, wshapes, lvecs, v, stats, oracle_every, rng, cut_qs, n_lv
             if idx % 3 == 0:
                 for off in (-400.0, -1000.0, 600.0):
                     calls.append((f"log-weights shifted by {off:g}", logl, lw + off, True))
+            outs = {}
             for cname, vals, lws, srt in calls:
-                check_wq(weighted_quantile, vals, lws, srt, qs, eqw, v, stats,
-                         f"{kind} {vec} lin={lin} likelihoods={tag} ({cname})")
+                outs[cname] = check_wq(weighted_quantile, vals, lws, srt, qs, eqw, v, stats,
+                                       f"{kind} {vec} lin={lin} likelihoods={tag} ({cname})")
+            # the same weighted sample given in another order (values_sorted=False) has the same quantiles
+            a, b = outs.get("sorted"), outs.get("unsorted")
+            if a is not None and b is not None and a.shape == b.shape:
+                tol_ = 1e-9 * max(1.0, float(np.max(np.abs(logl))))
+                if np.any(np.abs(a - b) > tol_):
+                    v.violation("wq_depends_on_input_order",
+                                f"weighted_quantile of the same weighted sample differs between sorted input "
+                                f"{a.tolist()} and permuted input with values_sorted=False {b.tolist()} for "
+                                f"{kind} {vec} lin={lin} likelihoods={tag}",
+                                {"case": "wq_order", "values": logl.tolist(), "log_weights": lw.tolist(),
+                                 "perm": perm.tolist(), "qs": qs.tolist()})
 
 
 def check_wq(weighted_quantile, vals, lws, srt, qs, eqw, v, stats, what):
@@ -575,7 +587,7 @@ def check_wq(weighted_quantile, vals, lws, srt, qs, eqw, v, stats, what):
         out = np.asarray(weighted_quantile(vals, qs, log_weights=lws, values_sorted=srt), dtype=float)
     except Exception as ex:  # noqa: BLE001
         v.violation("wq_raises", f"weighted_quantile raised {type(ex).__name__}: {ex} for {what}", replay)
-        return
+        return None
     lo, hi = float(np.min(vals)), float(np.max(vals))
     tol = 1e-9 * max(1.0, abs(lo), abs(hi))
     if out.shape != qs.shape:
@@ -604,6 +616,7 @@ def check_wq(weighted_quantile, vals, lws, srt, qs, eqw, v, stats, what):
                 v.violation("wq_equal_weights",
                             f"equal weights: weighted_quantile(q={q}) = {got!r}, the unweighted "
                             f"Harrell-Davis quantile is {want!r} for {what}", replay)
+    return out
 
 
 def end_to_end(s, wshapes, by_key, configs_by_size, lvecs, v, stats, rng, per_shape):
